@@ -177,19 +177,22 @@ func (q qw) GetRelation() *string  { return q.Relation }
 
 const seps = ":#@()"
 
+// inStringDomain: the fields avoid the separators in the positions where they are significant for
+// the documented form namespace:object#relation@subject read left to right (the reading the
+// repository's own decoding vectors such as "#dev:@ory#:working:@projects:keto#awesome" fix):
+// no ':' in the namespace, no '#' in the object, no '@' in the relation; a subject id holds no ':'
+// (it would read as a subject set) and no parenthesis (optional brackets are stripped); in a
+// subject set the namespace holds no ':' or '#', the object no '#', and none of its fields a
+// parenthesis.
 func inStringDomain(t *ketoapi.RelationTuple) bool {
-	fs := []string{t.Namespace, t.Object, t.Relation}
+	if strings.Contains(t.Namespace, ":") || strings.Contains(t.Object, "#") || strings.Contains(t.Relation, "@") {
+		return false
+	}
 	if t.SubjectID != nil {
-		fs = append(fs, *t.SubjectID)
-	} else {
-		fs = append(fs, t.SubjectSet.Namespace, t.SubjectSet.Object, t.SubjectSet.Relation)
+		return !strings.ContainsAny(*t.SubjectID, ":()")
 	}
-	for _, f := range fs {
-		if strings.ContainsAny(f, seps) {
-			return false
-		}
-	}
-	return true
+	ss := t.SubjectSet
+	return !strings.ContainsAny(ss.Namespace, ":#()") && !strings.ContainsAny(ss.Object, "#()") && !strings.ContainsAny(ss.Relation, "()")
 }
 
 func stringRoundTrips(t *ketoapi.RelationTuple) string {
@@ -507,7 +510,7 @@ func TestC18(t *testing.T) {
 		}
 	}
 
-	run.Assume("string-form domain = no field contains any of : # @ ( ) (the weakest reading of 'avoid the separators where significant')",
+	run.Assume("string-form domain = fields avoid the separators where the left-to-right reading of namespace:object#relation@subject makes them significant (no ':' in the namespace, no '#' in the object, no '@' in the relation, no ':' or parenthesis in a subject id, ...), the reading fixed by the repository's own decoding vectors",
 		"protobuf strings are valid UTF-8 (invalid UTF-8 cannot be marshalled and is outside 'well-formed protobuf')")
 	run.Finish(map[string]any{
 		"evaluations":         int(evals.Load() + qn.Load() + strs.Load() + cli),
